@@ -1,30 +1,55 @@
 _E1 = ["lnwallet/e1_engine_test.go", "lnwallet/e1_oracles_test.go", "lnwallet/e1_fork_test.go", "lnwallet/e1_debug_test.go"]
 PROP = {
     "level": "fault_enumeration",
-    "technique": "runtime monitor with crash-point injection: DB-copy forks after every state-machine call + real restarts (incl. mid-handler) of two real LightningChannels; durable-projection equality, released-secret safety, continue-after-restart oracles",
-    "level_text": ("Crash points are enumerated on executions of the real code: after every action of PRNG asynchronous schedules "
-                   "a consistent copy of each side's bbolt DB is reloaded (FetchOpenChannels+NewLightningChannel) and compared with "
-                   "the live object (persisted commitments incl. HTLC sigs/indexes, restored chains incl. pending remote commitment, "
+    "technique": "runtime monitor with crash-point injection: database forks after every state-machine call (bbolt: copy through a read transaction; sqlite kvdb backend: file-level crash image = database file + write-ahead log, reopened through WAL recovery) + real restarts (incl. mid-handler; on sqlite the restarting party closes and reopens its backend, alternately orderly shutdown and kill) of two real LightningChannels; durable-projection equality, released-secret safety, continue-after-restart oracles",
+    "level_text": ("Crash points are enumerated on executions of the real code, once per kvdb backend family that works offline: unit "
+                   "`crashpoints` runs both parties' channeldb on bbolt, unit `crashpoints_sqlite` (build tag kvdb_sqlite) on the SQL family's "
+                   "sqlite backend (kvdb/sqlbase + kvdb/sqlite, opened as lncfg does for db.backend=sqlite). After every action of PRNG "
+                   "asynchronous schedules a consistent image of each side's database is reloaded (FetchOpenChannels+NewLightningChannel) and "
+                   "compared with the live object (persisted commitments incl. HTLC sigs/indexes, restored chains incl. pending remote commitment, "
                    "revocation points/store, LastWasRevoke, forwarding packages); no released revocation secret is for a height >= the "
                    "height a reload would broadcast, and the reloaded commitment passes btcd's script interpreter with the right state "
                    "hint; real restarts (either side, also between ReceiveNewCommitment and RevokeCurrentCommitment) followed by "
-                   "channel_reestablish and a full drain must keep all C01 oracles and the exactly-once ledger. Thorough adds O(L^2) "
-                   "systematic replays (same schedule, one restart index each)."),
-    "level_note": ("bbolt backend only (the atomic-transaction abstraction is what the property relies on); update-log "
-                   "equality after reload is a diagnostic (restoreStateLogs normalises heights), the verdict-bearing counterpart "
-                   "is behavioural (continue-after-restart); held on the executions counted in evidence."),
+                   "channel_reestablish and a full drain must keep all C01 oracles and the exactly-once ledger. In a third of the cases every "
+                   "committed write transaction of either party is a crash point too (commit hook on the backend wrapper; both backends "
+                   "return from Update once per committed transaction). On sqlite the image is what kill -9 leaves (database file + WAL, no "
+                   "-shm) and a sample of the images is verified against a full bucket-tree dump of the live database (counter "
+                   "sqlite_fork_selfcheck); a real restart closes the restarting party's backend and opens it again (orderly shutdown in place, "
+                   "or from the kill image). Thorough adds O(L^2) systematic replays (same schedule, one restart index each)."),
+    "level_note": ("both kvdb backend families that run offline are exercised: bbolt and the sqlite kvdb backend (smaller volume; counters "
+                   "backend_bbolt_cases / backend_sqlite_cases and the `be=` component of the case signatures say which ran); the Postgres "
+                   "and etcd kvdb backends are not exercised (no server available offline; Postgres shares kvdb/sqlbase with sqlite, its "
+                   "server-side transaction semantics are not covered). Update-log equality after reload is a diagnostic (restoreStateLogs "
+                   "normalises heights), the verdict-bearing counterpart is behavioural (continue-after-restart); held on the executions "
+                   "counted in evidence."),
     "design_ref": "DESIGN.md §2 E1/E2, §3 C02",
-    "rule": ("case = C01-style schedule + PRNG restarts (4-11 % per action, 1/3 of them mid-handler) + forks every 1/2/4 actions; "
-             "non-trivial = >=1 HTLC irrevocably committed and >=1 real restart, not constraint-terminated; distinct = schedule "
-             "signature incl. restart/mid-crash buckets"),
-    "assumptions": ["a crash is modelled as dropping the in-memory objects between two kvdb transactions (each channeldb write is one atomic transaction)",
-                    "every restart also reloads the peer (lnd reloads a channel from disk on every reconnect)"],
+    "rule": ("case = C01-style schedule + PRNG restarts (4-11 % per action, 1/3 of them mid-handler) + forks every 1/2/4 actions, run on one "
+             "kvdb backend (bbolt or sqlite); non-trivial = >=1 HTLC irrevocably committed and >=1 real restart, not constraint-terminated; "
+             "distinct = schedule signature incl. restart/mid-crash buckets and backend"),
+    "assumptions": ["a crash is modelled as dropping the in-memory objects between two kvdb transactions (each channeldb write is one atomic transaction); on the sqlite backend the surviving disk state is the database file plus its write-ahead log as they are between two transactions (no torn page writes, no lost fsync: process crash, not power loss)",
+                    "every restart also reloads the peer (lnd reloads a channel from disk on every reconnect)",
+                    "kvdb backends exercised: bbolt and sqlite; Postgres and etcd are unavailable offline and not exercised"],
     "units": [{
         "name": "crashpoints", "pkg": "lnwallet", "test": "TestVerifC02",
         "files": _E1 + ["lnwallet/c01_test.go", "lnwallet/c02_test.go"],
         "shards": {"quick": 12, "thorough": 16},
         "watchdog": {"quick": 900, "thorough": 5400},
-        "floors": {"quick": {"nontrivial": 200, "forks": 7000, "restarts": 800},
-                   "thorough": {"nontrivial": 1800}},
+        "floors": {"quick": {"nontrivial": 200, "forks": 7000, "restarts": 800, "backend_bbolt_cases": 350},
+                   "thorough": {"nontrivial": 1800, "backend_bbolt_cases": 3000}},
+    }, {
+        # same test logic on the sqlite kvdb backend; e1_sqlite_test.go only
+        # exists in a kvdb_sqlite build and plugs into E1 through function
+        # variables, so no other unit needs the tag or the file.
+        "name": "crashpoints_sqlite", "pkg": "lnwallet", "test": "TestVerifC02Sqlite",
+        "tags": "kvdb_sqlite",
+        "files": _E1 + ["lnwallet/e1_sqlite_test.go", "lnwallet/c01_test.go", "lnwallet/c02_test.go"],
+        "shards": {"quick": 12, "thorough": 16},
+        "watchdog": {"quick": 900, "thorough": 5400},
+        "floors": {"quick": {"nontrivial": 70, "forks": 4000, "restarts": 170, "backend_sqlite_cases": 75,
+                             "sqlite_fork_selfcheck": 600, "sqlite_fork_images_with_wal": 4000,
+                             "sqlite_restart_clean": 70, "sqlite_restart_killed": 70, "mid_commit_forks": 500},
+                   "thorough": {"nontrivial": 900, "forks": 60000, "backend_sqlite_cases": 1200,
+                                "sqlite_fork_selfcheck": 9000, "sqlite_restart_clean": 800,
+                                "sqlite_restart_killed": 800}},
     }],
 }
